@@ -302,6 +302,7 @@ class Outcome:
     asserts: Tuple[Term, ...] = ()
     lineno: int = 0
     env: Optional[Dict[str, Term]] = None
+    trace: Tuple[Term, ...] = ()
 
     def __repr__(self):
         g = ' & '.join(('' if pol else 'not ') + repr(t) for t, pol in self.guards)
@@ -421,16 +422,17 @@ _UN = {ast.Not: 'not', ast.USub: 'neg', ast.UAdd: 'pos', ast.Invert: '~'}
 
 
 class _State:
-    __slots__ = ('env', 'guards', 'effects', 'asserts')
+    __slots__ = ('env', 'guards', 'effects', 'asserts', 'trace')
 
-    def __init__(self, env=None, guards=(), effects=(), asserts=()):
+    def __init__(self, env=None, guards=(), effects=(), asserts=(), trace=()):
         self.env: Dict[str, Term] = dict(env or {})
         self.guards: Tuple[Guard, ...] = tuple(guards)
         self.effects: Tuple[Term, ...] = tuple(effects)
         self.asserts: Tuple[Term, ...] = tuple(asserts)
+        self.trace: Tuple[Term, ...] = tuple(trace)  # package calls left un-inlined, in evaluation order
 
     def fork(self) -> '_State':
-        return _State(self.env, self.guards, self.effects, self.asserts)
+        return _State(self.env, self.guards, self.effects, self.asserts, self.trace)
 
 
 class _Flow(Exception):
@@ -622,7 +624,7 @@ class Evaluator:
         outs: List[Outcome] = []
         finals = self.block(fi.node.body, [st], fi.module, fi, depth, outs)
         for s in finals:
-            outs.append(Outcome('fall', NONE, s.guards, s.effects, s.asserts, fi.node.end_lineno or 0, dict(s.env)))
+            outs.append(Outcome('fall', NONE, s.guards, s.effects, s.asserts, fi.node.end_lineno or 0, dict(s.env), s.trace))
         return outs
 
     def bind_call(self, fi: FunctionInfo, recv: Optional[Term], args: Tuple[Term, ...], kwargs: Tuple[Tuple[str, Term], ...], depth: int) -> Optional[Dict[str, Term]]:
@@ -696,6 +698,10 @@ class Evaluator:
             if o.effects:
                 st.effects = st.effects + tuple(o.effects)
                 break  # effects of the first path are representative for inlined pure helpers
+        for o in outs:
+            if o.trace:
+                st.trace = st.trace + tuple(o.trace)
+                break
         return result
 
     @staticmethod
@@ -734,13 +740,13 @@ class Evaluator:
             v = self.expr(s.value, st, mod, fi, depth) if s.value is not None else NONE
             for g, leaf in alternatives(v):
                 if isinstance(leaf, Raises):
-                    outs.append(Outcome('raise', leaf.exc, st.guards + g, st.effects, st.asserts, s.lineno, dict(st.env)))
+                    outs.append(Outcome('raise', leaf.exc, st.guards + g, st.effects, st.asserts, s.lineno, dict(st.env), st.trace))
                 else:
-                    outs.append(Outcome('return', leaf, st.guards + g, st.effects, st.asserts, s.lineno, dict(st.env)))
+                    outs.append(Outcome('return', leaf, st.guards + g, st.effects, st.asserts, s.lineno, dict(st.env), st.trace))
             return []
         if isinstance(s, ast.Raise):
             v = self.expr(s.exc, st, mod, fi, depth) if s.exc is not None else Opaque('reraise')
-            outs.append(Outcome('raise', v, st.guards, st.effects, st.asserts, s.lineno, dict(st.env)))
+            outs.append(Outcome('raise', v, st.guards, st.effects, st.asserts, s.lineno, dict(st.env), st.trace))
             return []
         if isinstance(s, ast.Expr):
             if isinstance(s.value, ast.Constant):
@@ -1360,7 +1366,9 @@ class Evaluator:
                         r = self.inline_call(m, recv_arg, args, kwargs, st, depth)
                     if r is not None:
                         return r
-            return Call(func, args, kwargs)
+            c = Call(func, args, kwargs)
+            st.trace = st.trace + (c,)
+            return c
         if isinstance(func, FuncRef):
             m = self._fn_by_key.get(func.key)
             if m is not None:
@@ -1369,7 +1377,9 @@ class Evaluator:
                     r = self.inline_call(m, None, args, kwargs, st, depth)
                     if r is not None:
                         return r
-            return Call(func, args, kwargs)
+            c = Call(func, args, kwargs)
+            st.trace = st.trace + (c,)
+            return c
         if isinstance(func, Ext):
             self.resolved_calls += 1
             return self.ext_call(func, args, kwargs)
